@@ -238,8 +238,27 @@ Definition sync_borrow (e : env) (s : state) (u : nat) : res state :=
   end.
 
 (* loadSyncedDeposit / loadSyncedBorrow: interest is added for a coin only when the global
-   factor and the user's index entry both exist; sdk.NewCoin panics on a negative amount *)
-(* note: loadSyncedDeposit uses Quo-then-Mul (like the borrow side), SyncSupplyInterest uses Mul-then-Quo *)
+   factor and the user's index entry both exist; sdk.NewCoin panics on a negative amount
+   (unlike SyncSupplyInterest, which skips a non-positive interest), Dec.Quo on a zero index.
+   [intf] is the interest formula.  loadSyncedBorrow uses Quo-then-Mul ([bor_interest]) like
+   SyncBorrowInterest.  loadSyncedDeposit uses Mul-then-Quo ([sup_interest]) like
+   SyncSupplyInterest since fix 6c61e7a5b; before it, it used the borrow-side order and could
+   report one base unit less than the sync then credited. *)
+Definition load_coin_f (intf : Z -> Z -> Z -> Z) (gf : nat -> option Z) (r : urec) (acc : res coins) (d : nat)
+  : res coins :=
+  tot <- acc ;;
+  match gf d, idx_get d (idx r) with
+  | Some f, Some uf =>
+      if uf =? 0 then Panic else
+      let i := intf (amt r d) f uf in
+      if i <? 0 then Panic else ret (upd tot d i)
+  | _, _ => ret tot
+  end.
+Definition load_synced_f (intf : Z -> Z -> Z -> Z) (n : nat) (gf : nat -> option Z) (r : urec) : res coins :=
+  tot <- fold_left (load_coin_f intf gf r) (denoms n (amt r)) (ret czero) ;;
+  ret (cadd (amt r) tot).
+
+(* loadSyncedBorrow (= [load_coin_f bor_interest] / [load_synced_f bor_interest], written out) *)
 Definition load_coin (gf : nat -> option Z) (r : urec) (acc : res coins) (d : nat) : res coins :=
   tot <- acc ;;
   match gf d, idx_get d (idx r) with
@@ -253,8 +272,12 @@ Definition load_synced (n : nat) (gf : nat -> option Z) (r : urec) : res coins :
   tot <- fold_left (load_coin gf r) (denoms n (amt r)) (ret czero) ;;
   ret (cadd (amt r) tot).
 
+(* loadSyncedDeposit *)
+Definition load_coin_sup : (nat -> option Z) -> urec -> res coins -> nat -> res coins := load_coin_f sup_interest.
+Definition load_synced_sup : nat -> (nat -> option Z) -> urec -> res coins := load_synced_f sup_interest.
+
 Definition synced_deposit (e : env) (s : state) (u : nat) : option (res coins) :=
-  match dep s u with Some r => Some (load_synced (nd e) (sfac s) r) | None => None end.
+  match dep s u with Some r => Some (load_synced_sup (nd e) (sfac s) r) | None => None end.
 Definition synced_borrow (e : env) (s : state) (u : nat) : option (res coins) :=
   match bor s u with Some r => Some (load_synced (nd e) (bfac s) r) | None => None end.
 
